@@ -461,7 +461,7 @@ func c06Writer(c *eng.Ctx) {
 		nEnc++
 		// the encoder is the Writer's own
 		fr, base, isF := eng.LoadedField(call.Call.Args[0])
-		c.Check(isF && fr.Is("audit", "Writer", "enc") && eng.Origin(base) == we.Params[0], "R-C06-6", we, in.Pos(), "encoder used by "+eng.CallStr(&call.Call), "the Writer's own encoder", "encoder is "+eng.ValStr(call.Call.Args[0]))
+		c.Check(isF && fr.Is("audit", "Writer", auditField(p, "enc")) && eng.Origin(base) == we.Params[0], "R-C06-6", we, in.Pos(), "encoder used by "+eng.CallStr(&call.Call), "the Writer's own encoder", "encoder is "+eng.ValStr(call.Call.Args[0]))
 		// from the failure edge every path returns that error
 		returnsIt := func(x ssa.Instruction) bool {
 			r, ok := x.(*ssa.Return)
@@ -535,7 +535,7 @@ func c06Writer(c *eng.Ctx) {
 			return
 		}
 		fr, base, isF := eng.LoadedField(ta.X)
-		if isF && fr.Is("audit", "Writer", "w") && eng.Origin(base) == syn.Params[0] {
+		if isF && fr.Is("audit", "Writer", auditField(p, "w")) && eng.Origin(base) == syn.Params[0] {
 			iface, _ := ta.AssertedType.Underlying().(*types.Interface)
 			if iface != nil && iface.NumMethods() == 1 && iface.Method(0).Name() == "Sync" {
 				okSync = true
@@ -576,12 +576,12 @@ func c06Writer(c *eng.Ctx) {
 		if !ok {
 			return
 		}
-		wv := fields["w"]
-		encCall, _ := eng.TupleCall(fields["enc"])
+		wv := fields[auditField(p, "w")]
+		encCall, _ := eng.TupleCall(fields[auditField(p, "enc")])
 		if wv != nil && encCall != nil && eng.CalleeIs(&encCall.Call, "encoding/json", "NewEncoder") && eng.Same(encCall.Call.Args[0], wv) && eng.Origin(wv) == nw.Params[0] {
 			okNew = true
 		} else {
-			detail = "w = " + eng.ValStr(wv) + ", enc = " + eng.ValStr(fields["enc"])
+			detail = "w = " + eng.ValStr(wv) + ", enc = " + eng.ValStr(fields[auditField(p, "enc")])
 		}
 	})
 	c.Check(okNew, "R-C06-6", nw, nw.Pos(), "audit.New wiring", "enc = json.NewEncoder(w) on the same w that Sync syncs, w being New's argument (no buffering layer)", detail)
